@@ -886,6 +886,19 @@ func (w *vzWorld) broadcast(from *vzNode, cm tmcodec.ConsensusMessage, kind stri
 	w.s.Probe("sent_" + kind)
 }
 
+// vzErrClass renders an error for the event log without the parts that depend on map iteration
+// order inside the engine (which of several bad entries it happened to look at first).
+func vzErrClass(err error) string {
+	if err == nil {
+		return "<nil>"
+	}
+	m := err.Error()
+	if i := strings.Index(m, "for block hash"); i >= 0 {
+		m = m[:i] + "for block hash ..."
+	}
+	return m
+}
+
 // vzCanonFrame re-encodes a tmjson frame canonically. The codec builds the "Proofs" / "Commits"
 // arrays by ranging over Go maps, so the same message encodes to different byte strings from run to
 // run; faults that address a frame by byte offset (bit corruption) would then not replay. The arrays
@@ -1079,7 +1092,7 @@ func (w *vzWorld) headerSync(nd, donor *vzNode, h uint64) {
 				w.orc.onReplayUnanswered(nd, ch.Header)
 				return
 			}
-			w.s.Logf("header sync %d => err=%v", id, r.Err)
+			w.s.Logf("header sync %d => err=%s", id, vzErrClass(r.Err))
 			if r.Err == nil {
 				w.s.Probe("header_sync_accepted")
 			} else {
